@@ -48,6 +48,9 @@ pub enum QK {
     Push,
     TryPop,
     TryPopIf,
+    /// not a queue operation: `a` + 1 collection rounds (`{ let g = cs(); g.flush(); }`), so that
+    /// nodes retired by earlier pops are really freed (and poisoned) within the case
+    Collect,
 }
 #[derive(Serialize, Deserialize, Clone, Copy, Debug, PartialEq, Eq)]
 pub struct QOp {
@@ -85,7 +88,11 @@ pub fn queue_strategy() -> BoxedStrategy<Value> {
 
 /// Queue payload: a value with an observable destructor, so that an element that is moved out
 /// of the queue twice (or never) shows up as dropped twice (or never).
-pub struct Tok(u64);
+/// (padded so that a queue node is large enough for the poisoning allocator, >= 32 bytes)
+pub struct Tok(u64, [u64; 3]);
+fn tok(v: u64) -> Tok {
+    Tok(v, [v; 3])
+}
 static TOK_DROPS: Mutex<BTreeMap<u64, u32>> = Mutex::new(BTreeMap::new());
 impl Drop for Tok {
     fn drop(&mut self) {
@@ -115,6 +122,60 @@ pub fn queue_starvation_strategy() -> BoxedStrategy<Value> {
             }
             sched.push(Directive { thread: 0, until: Until::End });
             serde_json::to_value(QCase { prefill: 24, threads, sched }).unwrap()
+        })
+        .boxed()
+}
+
+/// Q2: a push parked somewhere inside the call (after `s` atomic accesses: before / after its
+/// link CAS, before its tail update) while a rival pushes and pops everything, so that the nodes
+/// the parked push knows are retired; the push resumes, every thread then runs collection rounds
+/// until the retired nodes are really freed (poisoned), and more pushes and pops follow. A tail
+/// that was moved backwards onto a retired node is then a use-after-free or a lost element.
+pub fn queue_reclaim_strategy() -> BoxedStrategy<Value> {
+    let park = prop_oneof![
+        2 => (0u32..24).prop_map(Until::Steps),
+        2 => (1u32..4).prop_map(|nth| Until::Site { site: site::RAW_CAS, nth, ops: 1 }),
+        2 => (1u32..4).prop_map(|nth| Until::Site { site: site::RAW_STORE, nth, ops: 1 }),
+        1 => (1u32..4).prop_map(|nth| Until::Site { site: site::RAW_LOAD, nth, ops: 1 }),
+    ];
+    (0u8..3, park, 1u8..4, 1u8..4, 1u8..4, any::<bool>())
+        .prop_map(|(prefill, park, rival_pushes, rounds, after, third)| {
+            let push = QOp { k: QK::Push, a: 0 };
+            let pop = QOp { k: QK::TryPop, a: 0 };
+            let collect = QOp { k: QK::Collect, a: 3 };
+            let mut t0 = vec![push];
+            let mut t1: Vec<QOp> = (0..rival_pushes).map(|_| push).collect();
+            let pops = prefill as u32 + rival_pushes as u32 + 1;
+            for _ in 0..pops {
+                t1.push(pop);
+            }
+            let rival_ops = t1.len() as u32;
+            for _ in 0..rounds {
+                t0.push(collect);
+                t1.push(collect);
+            }
+            for _ in 0..after {
+                t0.push(push);
+                t1.push(push);
+                t1.push(pop);
+            }
+            let mut threads = vec![t0, t1];
+            if third {
+                threads.push(vec![collect, push, collect, pop]);
+            }
+            let mut sched = vec![
+                Directive { thread: 0, until: park },
+                Directive { thread: 1, until: Until::OpIndex(rival_ops) },
+                Directive { thread: 0, until: Until::Ops(1) },
+            ];
+            for _ in 0..rounds {
+                if third {
+                    sched.push(Directive { thread: 2, until: Until::Ops(1) });
+                }
+                sched.push(Directive { thread: 0, until: Until::Ops(1) });
+                sched.push(Directive { thread: 1, until: Until::Ops(1) });
+            }
+            serde_json::to_value(QCase { prefill, threads, sched }).unwrap()
         })
         .boxed()
 }
@@ -160,6 +221,7 @@ fn linearizable(h: &[QRec], init: &[u64]) -> bool {
                     }
                     q.pop();
                 }
+                QK::Collect => unreachable!("collection rounds are not recorded in the history"),
                 QK::TryPop | QK::TryPopIf => {
                     let ok_pred = |v: u64| r.k == QK::TryPop || v < r.arg;
                     match r.res {
@@ -203,7 +265,7 @@ pub fn exec_c17(_prop: &str, v: &Value) -> Report {
         for i in 0..case.prefill as u64 {
             // values are unique; low values so that predicates sometimes accept them
             let v = 8 * i + 3;
-            q.push(Tok(v), &g);
+            q.push(tok(v), &g);
             init.push(v);
         }
     }
@@ -218,16 +280,25 @@ pub fn exec_c17(_prop: &str, v: &Value) -> Report {
                 let mut seq = 0u64;
                 for op in ops {
                     sched::op_begin();
+                    if op.k == QK::Collect {
+                        for _ in 0..=op.a {
+                            let g = cs();
+                            g.flush();
+                        }
+                        sched::op_done();
+                        continue;
+                    }
                     let g = cs();
                     let (arg, res): (u64, Option<u64>);
                     let inv = tick();
                     match op.k {
+                        QK::Collect => unreachable!(),
                         QK::Push => {
                             // unique value whose low byte (what predicates look at) is spread out
                             seq += 1;
                             let low = ((seq * 37 + t as u64 * 11) % 32) * 8;
                             let val = low + 256 * (seq * 4 + t as u64 + 1);
-                            q.push(Tok(val), &g);
+                            q.push(tok(val), &g);
                             QHIST.lock().unwrap().push(QRec { thread: t, k: op.k, arg: val, res: None, inv, resp: tick() });
                             drop(g);
                             sched::op_done();
@@ -342,7 +413,11 @@ pub fn exec_c17(_prop: &str, v: &Value) -> Report {
     }
     let refused = hist.iter().any(|r| r.k == QK::TryPopIf && r.res.is_none());
     let cond_ok = hist.iter().any(|r| r.k == QK::TryPopIf && r.res.is_some());
-    rep.nontrivial = overlap && refused;
+    let collected = case.threads.iter().flatten().any(|o| o.k == QK::Collect);
+    rep.nontrivial = overlap && (refused || collected);
+    if collected {
+        rep.label("collection-rounds-within-the-case");
+    }
     rep.count("ops", hist.len() as u64);
     rep.count("switches", summary.switches);
     rep.count("mid_op_parks", summary.mid_op_parks);
